@@ -15,18 +15,31 @@ function `(row, column) ↦ ℂ` of the two bit values):
   M_P = (1/n) Σ_i P_i ;   N_c = (1/n) Σ_{(i,k) : k = i + c} Z_i Z_k   (open: k = i + c as numbers, so only
   i + c < n contribute — nothing at all when c ≥ n; periodic: k = (i + c) mod n).
   tr(R·O) = Σ_{σ,σ'} R(σ,σ') O(σ',σ).
-  (With these documented conventions X·Y = −iZ; each estimator matches the operator its own docstring names.
-   The Y convention is DERIVED from the code's coefficient `i·to_pm1(σ_i)`, see `C08_sigmaY`.)
+  CONVENTION (one, stated once).  The observables read a sample bit through `to_pm1`: bit 0 ↦ spin −1, bit 1 ↦ spin +1
+  (observables/utils.py:16-24, documented).  With `Z = diag(−1,+1)` on (|0⟩,|1⟩) and the standard X, Y matrices on the same
+  ordered basis, the triple is LEFT-handed: `X·Y = −iZ` (`C08_pauli_triple`); each estimator matches the operator its own
+  docstring names.  The Y matrix is read off the code's coefficient `i·to_pm1(σ_i)` (`C08_sigmaY`), so the per-observable
+  theorems alone cannot detect a sign error; the independent anchor is the library's basis-rotation convention
+  (utils/unitaries.py, property C04: rows of the default `X`, `Y` unitaries are the +1, −1 eigen-bras in that order, i.e.
+  outcome 0 ↔ eigenvalue +1).  The two documented conventions differ by a sign on the meaning of outcome 0, hence
+      Σ_σ p_P(σ)·SigmaZ.apply(σ) = −Σ_σ p(σ)·SigmaP.apply(σ),  P ∈ {X, Y},  p_P = Born distribution in the all-P basis
+  (`C08_basis_rotation_sign`, `C08_rotated_Z`, `C08_rotated_Z_pure`, `C08_rotated_Z_mixed`); the harness evaluates exactly
+  this relation on the real code with `rotate_psi` / `rotate_psi_inner_prod` / `rotate_rho_probs` (oracle "rotated-basis
+  SigmaZ == −SigmaP").  This is an OBSERVATION about two documented conventions, not a violation of the property: a user who
+  feeds X-basis measurement outcomes to `SigmaZ` obtains −⟨X⟩ relative to `SigmaX`.
 
 States.  The observables see a state only through `importance_sampling_numerator/denominator`
 (`ImpState`).  `Represents S G p` says which unnormalised density matrix `G` and which exact sampling
 distribution `p` an interface `S` stands for; `C08_represents_pure` (ψ, for positive and complex
 wavefunctions: G = |ψ⟩⟨ψ|, p = |ψ|²/Σ|ψ|²) and `C08_represents_mixed` (G = ρ, p = ρ_σσ / tr ρ) establish it for
-the two implementations in the library under `ψ σ ≠ 0` resp. `ρ σσ = probability σ ≠ 0` (which C01/C02
-give for every RBM state: `|ψ σ|² = ρ σσ = exp(−E(σ)) > 0`).  No Hermiticity of ρ is needed for the
-real-part identities; for Hermitian ρ the trace is real (`C08_trace_real`).
+the two implementations in the library under `ψ σ ≠ 0` resp. `ρ σσ = probability σ ≠ 0`; both hold for every RBM
+state (`C08_rbm_psi_ne_zero` from C01, `C08_rbm_rho_diag` from C02_diagonal: `|ψ σ|² = ρ σσ = exp(−E(σ)) > 0`), so
+`C08_mixed_rbm` is hypothesis-free.  No Hermiticity of ρ is needed for the real-part identities; for Hermitian ρ the
+trace is real (`C08_trace_real`; RBM density matrix: `C08_rbm_rho_hermitian` from C02_hermitian_entry,
+`C08_mixed_rbm_trace_real`).
 
 Model definitions: QV.Model.Observables (executed against the code by the C08 correspondence check).
+(`Obs.toC` is written qualified: QV.Lemmas.Cplx, imported through C04, has an identical decoding `QV.toC`; `obs_toC_eq`.)
 -/
 import Mathlib.Data.Complex.Basic
 import Mathlib.Data.Complex.BigOperators
@@ -35,6 +48,8 @@ import QV.Model.Observables
 import QV.Model.States
 import QV.Lemmas.Observables
 import QV.Props.C01
+import QV.Props.C02
+import QV.Props.C04
 
 namespace QV.Props
 namespace C08
@@ -87,10 +102,10 @@ def trOp (R O : Op n) : ℂ := ∑ σ, ∑ σ', R σ σ' * O σ' σ
 noncomputable def normalised (G : Op n) : Op n := fun σ σ' => G σ σ' / ∑ τ, G τ τ
 
 /-- `|ψ⟩⟨ψ|` for a wavefunction given as real pairs -/
-def dmPure (psi : Cfg n → C ℝ) : Op n := fun σ σ' => toC (psi σ) * conj (toC (psi σ'))
+def dmPure (psi : Cfg n → C ℝ) : Op n := fun σ σ' => Obs.toC (psi σ) * conj (Obs.toC (psi σ'))
 
 /-- the matrix of a mixed state given as real pairs -/
-def dmMixed (rho : Cfg n → Cfg n → C ℝ) : Op n := fun σ σ' => toC (rho σ σ')
+def dmMixed (rho : Cfg n → Cfg n → C ℝ) : Op n := fun σ σ' => Obs.toC (rho σ σ')
 
 /-- exact sampling distribution of a pure state: `|ψ σ|² / Σ_τ |ψ τ|²` (= `probability(σ)/Z`, C01) -/
 noncomputable def bornPure (psi : Cfg n → C ℝ) (σ : Cfg n) : ℝ :=
@@ -101,7 +116,7 @@ noncomputable def bornMixed (prob : Cfg n → ℝ) (σ : Cfg n) : ℝ := prob σ
 
 /-- `⟨ψ|O|ψ⟩ / ⟨ψ|ψ⟩` -/
 noncomputable def expectation (psi : Cfg n → C ℝ) (O : Op n) : ℂ :=
-  (∑ σ, ∑ σ', conj (toC (psi σ)) * O σ σ' * toC (psi σ')) / ((∑ τ, C.normSq (psi τ) : ℝ) : ℂ)
+  (∑ σ, ∑ σ', conj (Obs.toC (psi σ)) * O σ σ' * Obs.toC (psi σ')) / ((∑ τ, C.normSq (psi τ) : ℝ) : ℂ)
 
 /-- The importance-sampling interface `S` stands for the unnormalised density matrix `G`, sampled with
 the exact distribution `p`:  `p σ = G σσ / tr G`,  `G σσ ≠ 0`, and
@@ -109,7 +124,7 @@ the exact distribution `p`:  `p σ = G σσ / tr G`,  `G σσ ≠ 0`, and
 structure Represents (S : ImpState ℝ n) (G : Op n) (p : Cfg n → ℝ) : Prop where
   born : ∀ σ, (p σ : ℂ) = G σ σ / ∑ τ, G τ τ
   nz : ∀ σ, G σ σ ≠ 0
-  ratio : ∀ vp v, toC (S.numer vp v) / toC (S.denom v) = G vp v / G v v
+  ratio : ∀ vp v, Obs.toC (S.numer vp v) / Obs.toC (S.denom v) = G vp v / G v v
 
 /-! ### The two state implementations -/
 
@@ -118,18 +133,18 @@ structure Represents (S : ImpState ℝ n) (G : Op n) (p : Cfg n → ℝ) : Prop 
 theorem C08_represents_pure (psi : Cfg n → C ℝ) (hψ : ∀ σ, psi σ ≠ (0, 0)) :
     Represents (ImpState.pure psi) (dmPure psi) (bornPure psi) := by
   have hd : ∀ σ, dmPure psi σ σ = ((C.normSq (psi σ) : ℝ) : ℂ) := by
-    intro σ; rw [dmPure, Complex.mul_conj, toC_normSq]
+    intro σ; rw [dmPure, Complex.mul_conj, Obs.toC_normSq]
   refine ⟨?_, ?_, ?_⟩
   · intro σ
     simp_rw [hd]
     rw [bornPure]; push_cast; rfl
   · intro σ
-    have := toC_ne_zero (hψ σ)
+    have := Obs.toC_ne_zero (hψ σ)
     simp only [dmPure]
     exact mul_ne_zero this ((map_ne_zero _).2 this)
   · intro vp v
-    have h1 := toC_ne_zero (hψ v)
-    have h2 : conj (toC (psi v)) ≠ 0 := (map_ne_zero _).2 h1
+    have h1 := Obs.toC_ne_zero (hψ v)
+    have h2 : conj (Obs.toC (psi v)) ≠ 0 := (map_ne_zero _).2 h1
     simp only [ImpState.pure, dmPure]
     rw [mul_div_mul_right _ _ h2]
 
@@ -152,12 +167,12 @@ theorem C08_represents_mixed (rho : Cfg n → Cfg n → C ℝ) (prob : Cfg n →
 
 /-- `importance_sampling_weight` is the ratio `G σ'σ / G σσ` (pure: `ψ(σ')/ψ(σ)`). -/
 theorem C08_importance_weight {S : ImpState ℝ n} {G : Op n} {p : Cfg n → ℝ} (h : Represents S G p)
-    (vp v : Cfg n) : toC (S.weight vp v) = G vp v / G v v := by
-  rw [ImpState.weight, toC_div, h.ratio]
+    (vp v : Cfg n) : Obs.toC (S.weight vp v) = G vp v / G v v := by
+  rw [ImpState.weight, Obs.toC_div, h.ratio]
 
 theorem C08_importance_weight_pure (psi : Cfg n → C ℝ) (vp v : Cfg n) :
-    toC ((ImpState.pure psi).weight vp v) = toC (psi vp) / toC (psi v) := by
-  rw [ImpState.weight, toC_div]; rfl
+    Obs.toC ((ImpState.pure psi).weight vp v) = Obs.toC (psi vp) / Obs.toC (psi v) := by
+  rw [ImpState.weight, Obs.toC_div]; rfl
 
 /-- for a pure state the trace with the normalised projector is the expectation value -/
 theorem C08_pure_trace_eq_expectation (psi : Cfg n → C ℝ) (O : Op n) :
@@ -165,7 +180,7 @@ theorem C08_pure_trace_eq_expectation (psi : Cfg n → C ℝ) (O : Op n) :
   have hT : ∑ τ, dmPure psi τ τ = ((∑ τ, C.normSq (psi τ) : ℝ) : ℂ) := by
     push_cast
     refine Finset.sum_congr rfl (fun τ _ => ?_)
-    rw [dmPure, Complex.mul_conj, toC_normSq]
+    rw [dmPure, Complex.mul_conj, Obs.toC_normSq]
   unfold trOp expectation normalised
   rw [hT, Finset.sum_div, Finset.sum_comm]
   refine Finset.sum_congr rfl (fun σ _ => ?_)
@@ -192,7 +207,7 @@ theorem C08_sigmaX {S : ImpState ℝ n} {G : Op n} {p : Cfg n → ℝ} (h : Repr
 theorem C08_sigmaY {S : ImpState ℝ n} {G : Op n} {p : Cfg n → ℝ} (h : Represents S G p) :
     ∑ σ, p σ * sigmaYApply S false σ = (trOp (normalised G) (magnetOp pauliY)).re := by
   have := pauli_estimator S G p (∑ τ, G τ τ) h.born h.nz h.ratio pauliY (by simp [pauliY])
-    (fun σ i => toC ((0, spin (σ i)) : C ℝ))
+    (fun σ i => Obs.toC ((0, spin (σ i)) : C ℝ))
     (by intro σ i; cases σ i <;> simp [pauliY, Complex.ext_iff])
   refine Eq.trans ?_ this
   refine Finset.sum_congr rfl (fun σ _ => ?_)
@@ -370,6 +385,440 @@ theorem C08_rbm_psi_ne_zero {hid : ℕ} (am ph : RBM ℝ n hid) (σ : Cfg n) :
     have hpos := Real.exp_pos (-(am.effEnergy fun j => bit (σ j)))
     norm_num at this
     linarith
+
+/-! ### The sign anchor: Pauli algebra and the library's own basis rotations (audit item C08-1)
+
+The per-observable theorems above identify each estimator with the operator its docstring names; the Y and Z matrices were
+read off the code (`i·to_pm1(σ_i)`, `to_pm1`).  This section ties the three SIGNS to each other through a part of the library
+the observables do not share any code with: the default unitary dictionary of `utils/unitaries.py`, whose rows are the `+1`,
+`−1` eigen-bras of Pauli X and Y IN THAT ORDER (property C04: `C04_dX_eigen`, `C04_dY_eigen`), i.e. measurement outcome `0` in
+a rotated basis means eigenvalue `+1`, whereas the observables' spin convention `to_pm1` reads outcome `0` as `−1`.  The two
+documented conventions together imply: `SigmaZ` evaluated on outcomes drawn in the all-X (all-Y) basis averages to MINUS the
+average of `SigmaX` (`SigmaY`) on computational-basis samples (`C08_rotated_Z*`), and the spec operators form the
+left-handed triple `X·Y = −iZ` (`C08_pauli_triple`).  A sign flip of the coefficient in `SigmaY` alone (or of `SigmaX`, or of
+`to_pm1`) falsifies `C08_rotated_Z` without any reference to the `pauliY` / `pauliZ` matrices of this file. -/
+
+/-- the two decodings of the model's real pairs (QV.Lemmas.Observables / QV.Lemmas.Cplx) are the same function -/
+theorem obs_toC_eq (z : C ℝ) : Obs.toC z = QV.toC z := rfl
+
+/-- product of two single-site matrices -/
+def mul2 (P Q : Bool → Bool → ℂ) : Bool → Bool → ℂ := fun a b => ∑ c, P a c * Q c b
+
+/-- single-site operators on the same site multiply site-wise -/
+theorem siteOp_mul (P Q : Bool → Bool → ℂ) (i : Fin n) (σ σ' : Cfg n) :
+    opMul (siteOp P i) (siteOp Q i) σ σ' = siteOp (mul2 P Q) i σ σ' := by
+  unfold opMul
+  have h := sum_site (fun τ => siteOp Q i τ σ') P i σ
+  have e : ∀ τ, siteOp P i σ τ * siteOp Q i τ σ'
+      = siteOp Q i τ σ' * (if ∀ j, j ≠ i → σ j = τ j then P (σ i) (τ i) else 0) := by
+    intro τ; rw [mul_comm]; rfl
+  simp_rw [e]
+  rw [h]
+  unfold siteOp mul2
+  have hf : (∀ j, j ≠ i → flipSpin i σ j = σ' j) ↔ (∀ j, j ≠ i → σ j = σ' j) := by
+    constructor <;> intro hh j hj
+    · rw [← flipSpin_other σ hj]; exact hh j hj
+    · rw [flipSpin_other σ hj]; exact hh j hj
+  by_cases hall : ∀ j, j ≠ i → σ j = σ' j
+  · rw [if_pos hall, if_pos (hf.2 hall), if_pos hall, flipSpin_same, Fintype.sum_bool]
+    cases σ i <;> simp <;> ring
+  · rw [if_neg hall, if_neg (fun h' => hall (hf.1 h')), if_neg hall]; simp
+
+/-- **the Pauli triple of the spec operators is left-handed**: `X·Y = −i·Z`, `Y·X = +i·Z` (with the library's
+`Z = diag(−1,+1)`), as 2×2 matrices and as operators on site `i` of an `n`-site chain.  (With the textbook
+`Z = diag(+1,−1)` it would be `X·Y = +iZ`: the difference is the documented `to_pm1` convention.) -/
+theorem C08_pauli_triple :
+    (∀ a b, mul2 pauliX pauliY a b = -Complex.I * pauliZ a b)
+    ∧ (∀ a b, mul2 pauliY pauliX a b = Complex.I * pauliZ a b)
+    ∧ (∀ (i : Fin n) (σ σ' : Cfg n),
+        opMul (siteOp pauliX i) (siteOp pauliY i) σ σ' = -Complex.I * siteOp pauliZ i σ σ') := by
+  have h1 : ∀ a b, mul2 pauliX pauliY a b = -Complex.I * pauliZ a b := by
+    intro a b; cases a <;> cases b <;> simp [mul2, pauliX, pauliY, pauliZ, Fintype.sum_bool]
+  refine ⟨h1, ?_, ?_⟩
+  · intro a b; cases a <;> cases b <;> simp [mul2, pauliX, pauliY, pauliZ, Fintype.sum_bool]
+  · intro i σ σ'
+    rw [siteOp_mul]
+    unfold siteOp
+    split
+    · exact h1 _ _
+    · simp
+
+
+/-- the operator `uᴴ · diag(D) · u` on one site -/
+def conjDiag (u : Matrix Bool Bool ℂ) (D : Bool → ℂ) : Bool → Bool → ℂ :=
+  fun a b => ∑ c, star (u c a) * D c * u c b
+
+theorem rot_site (u : Matrix Bool Bool ℂ) (hu : u.conjTranspose * u = 1) (D : Bool → ℂ) (i : Fin n)
+    (τ τ' : Cfg n) :
+    ∑ σ : Cfg n, star (∏ j, u (σ j) (τ j)) * D (σ i) * ∏ j, u (σ j) (τ' j)
+      = siteOp (conjDiag u D) i τ τ' := by
+  have key : ∀ j, ∑ b : Bool, star (u b (τ j)) * u b (τ' j) = if τ j = τ' j then 1 else 0 := by
+    intro j
+    have := congrFun (congrFun hu (τ j)) (τ' j)
+    simpa [Matrix.mul_apply, Matrix.conjTranspose_apply, Matrix.one_apply] using this
+  have h1 : ∀ σ : Cfg n, star (∏ j, u (σ j) (τ j)) * D (σ i) * ∏ j, u (σ j) (τ' j)
+      = ∏ j, (star (u (σ j) (τ j)) * (if j = i then D (σ j) else 1) * u (σ j) (τ' j)) := by
+    intro σ
+    rw [Finset.prod_mul_distrib, Finset.prod_mul_distrib, Finset.prod_ite_eq' Finset.univ i (fun j => D (σ j)),
+      if_pos (Finset.mem_univ i), star_prod]
+  simp_rw [h1]
+  have hsum : (∑ σ : Cfg n, ∏ j, (star (u (σ j) (τ j)) * (if j = i then D (σ j) else 1) * u (σ j) (τ' j)))
+      = ∏ j, ∑ b : Bool, (star (u b (τ j)) * (if j = i then D b else 1) * u b (τ' j)) := by
+    rw [Finset.prod_univ_sum, Fintype.piFinset_univ]
+  rw [hsum]
+  have hf : ∀ j, ∑ b : Bool, (star (u b (τ j)) * (if j = i then D b else 1) * u b (τ' j))
+      = if j = i then conjDiag u D (τ j) (τ' j) else if τ j = τ' j then 1 else 0 := by
+    intro j
+    by_cases hj : j = i
+    · simp only [hj, if_true, conjDiag]
+    · simp only [hj, if_false, mul_one]; exact key j
+  simp_rw [hf]
+  unfold siteOp
+  by_cases hall : ∀ j, j ≠ i → τ j = τ' j
+  · rw [if_pos hall]
+    have : ∀ j ∈ (Finset.univ : Finset (Fin n)),
+        (if j = i then conjDiag u D (τ j) (τ' j) else if τ j = τ' j then (1 : ℂ) else 0)
+          = if j = i then conjDiag u D (τ j) (τ' j) else 1 := by
+      intro j _
+      by_cases hj : j = i
+      · simp [hj]
+      · simp [hj, hall j hj]
+    rw [Finset.prod_congr rfl this, Finset.prod_ite_eq' Finset.univ i, if_pos (Finset.mem_univ i)]
+  · rw [if_neg hall]
+    push Not at hall
+    obtain ⟨j, hj, hne⟩ := hall
+    exact Finset.prod_eq_zero (Finset.mem_univ j) (by simp [hj, hne])
+
+/-- **rotated-basis expectation of a diagonal magnetisation.**  `K = ⊗_j u` a tensor power of a unitary, `R` any matrix:
+`Σ_σ (K R Kᴴ)_σσ · (1/n) Σ_i D(σ_i) = tr(R · M_Q)` with `Q = uᴴ diag(D) u`. -/
+theorem rotated_magnet (u : Matrix Bool Bool ℂ) (hu : u.conjTranspose * u = 1) (D : Bool → ℂ)
+    (K : Matrix (Cfg n) (Cfg n) ℂ) (hK : ∀ σ τ, K σ τ = ∏ j, u (σ j) (τ j)) (R : Op n) :
+    ∑ σ : Cfg n, (K * Matrix.of R * K.conjTranspose) σ σ * ((1 / (n : ℂ)) * ∑ i, D (σ i))
+      = trOp R (magnetOp (conjDiag u D)) := by
+  let T : Cfg n → Cfg n → Cfg n → Fin n → ℂ := fun σ τ τ' i =>
+    K σ τ * R τ τ' * star (K σ τ') * ((1 / (n : ℂ)) * D (σ i))
+  have hL : ∀ σ : Cfg n, (K * Matrix.of R * K.conjTranspose) σ σ * ((1 / (n : ℂ)) * ∑ i, D (σ i))
+      = ∑ τ, ∑ τ', ∑ i, T σ τ τ' i := by
+    intro σ
+    simp only [Matrix.mul_apply, Matrix.conjTranspose_apply, Matrix.of_apply, Finset.sum_mul, Finset.mul_sum, T]
+    rw [Finset.sum_comm]
+    refine (Finset.sum_congr rfl (fun τ' _ => Finset.sum_comm)).trans ?_
+    exact Finset.sum_comm
+  have hR : ∀ τ τ' : Cfg n, R τ τ' * magnetOp (conjDiag u D) τ' τ = ∑ i, ∑ σ, T σ τ τ' i := by
+    intro τ τ'
+    unfold magnetOp
+    simp only [Finset.mul_sum, T]
+    refine Finset.sum_congr rfl (fun i _ => ?_)
+    rw [← rot_site u hu D i τ' τ]
+    simp only [Finset.mul_sum, hK]
+    refine Finset.sum_congr rfl (fun σ _ => ?_)
+    ring
+  unfold trOp
+  simp_rw [hL, hR]
+  -- Σ_σ Σ_τ Σ_τ' Σ_i  =  Σ_τ Σ_τ' Σ_i Σ_σ
+  rw [Finset.sum_comm]
+  refine Finset.sum_congr rfl (fun τ _ => ?_)
+  rw [Finset.sum_comm]
+  refine Finset.sum_congr rfl (fun τ' _ => ?_)
+  rw [Finset.sum_comm]
+
+/-- the `to_pm1` spin values `0 ↦ −1`, `1 ↦ +1`: the diagonal of `Z` -/
+def zDiag (c : Bool) : ℂ := pauliZ c c
+
+/-- if the rows of the unitary `u` are the `+1`, `−1` eigen-bras of `P` in that order (`u P = diag(+1,−1) u`, C04) then, with
+the observables' spin convention `Z = diag(−1,+1)`, `uᴴ Z u = −P`. -/
+theorem conjDiag_of_eigen (u P : Matrix Bool Bool ℂ) (hu : u.conjTranspose * u = 1) (he : u * P = diagPM * u) :
+    ∀ a b, conjDiag u zDiag a b = -P a b := by
+  have hP : P = u.conjTranspose * (diagPM * u) := by rw [← he, ← Matrix.mul_assoc, hu, Matrix.one_mul]
+  intro a b
+  rw [hP]
+  simp only [conjDiag, zDiag, Matrix.mul_apply, Matrix.conjTranspose_apply, diagPM, pauliZ, Fintype.sum_bool]
+  simp
+  ring
+
+/-- Born probabilities of the outcomes in a rotated basis: the diagonal of `K G Kᴴ / tr G`, `K = ⊗_j U_j` (C04) -/
+noncomputable def rotatedBorn (us : Fin n → M2 ℝ) (G : Op n) (σ : Cfg n) : ℝ :=
+  ((denseK us * Matrix.of G * (denseK us).conjTranspose) σ σ / ∑ τ, G τ τ).re
+
+theorem trOp_normalised (G O : Op n) : trOp (normalised G) O = trOp G O / ∑ τ, G τ τ := by
+  unfold trOp normalised
+  rw [Finset.sum_div]
+  refine Finset.sum_congr rfl (fun σ _ => ?_)
+  rw [Finset.sum_div]
+  refine Finset.sum_congr rfl (fun σ' _ => ?_)
+  ring
+
+theorem magnetOp_neg (P Q : Bool → Bool → ℂ) (h : ∀ a b, Q a b = -P a b) (G : Op n) :
+    trOp G (magnetOp Q) = -trOp G (magnetOp P) := by
+  unfold trOp magnetOp siteOp
+  rw [← Finset.sum_neg_distrib]
+  refine Finset.sum_congr rfl (fun σ _ => ?_)
+  rw [← Finset.sum_neg_distrib]
+  refine Finset.sum_congr rfl (fun σ' _ => ?_)
+  rw [← mul_neg, ← mul_neg, ← Finset.sum_neg_distrib]
+  congr 2
+  refine Finset.sum_congr rfl (fun i _ => ?_)
+  split
+  · exact h _ _
+  · simp
+
+/-- **SigmaZ on rotated-basis outcomes.**  For a per-site unitary `U` whose rows are the `+1`, `−1` eigen-bras of `P`,
+the exact average of `SigmaZ.apply` over the Born distribution of the outcomes in the all-`U` basis is MINUS the
+expectation of the magnetisation `M_P`. -/
+theorem rotated_Z_expectation (hn : 0 < n) (U : M2 ℝ) (P : Bool → Bool → ℂ)
+    (hu : (m2c U).conjTranspose * m2c U = 1) (hQ : ∀ a b, conjDiag (m2c U) zDiag a b = -P a b) (G : Op n) :
+    ∑ σ, rotatedBorn (fun _ => U) G σ * sigmaZApply false σ = -(trOp (normalised G) (magnetOp P)).re := by
+  have hz : ∀ σ : Cfg n, ((sigmaZApply false σ : ℝ) : ℂ) = (1 / (n : ℂ)) * ∑ i, zDiag (σ i) := by
+    intro σ
+    rw [sigmaZApply_eq hn]
+    simp only [zDiag, pauliZ_diag]
+    push_cast
+    rfl
+  have key := rotated_magnet (m2c U) hu zDiag (denseK (fun _ : Fin n => U)) (fun σ τ => rfl) G
+  have hL : ∀ σ : Cfg n, rotatedBorn (fun _ => U) G σ * sigmaZApply false σ
+      = (((denseK (fun _ : Fin n => U) * Matrix.of G * (denseK (fun _ : Fin n => U)).conjTranspose) σ σ
+          * ((1 / (n : ℂ)) * ∑ i, zDiag (σ i))) / ∑ τ, G τ τ).re := by
+    intro σ
+    rw [← hz, rotatedBorn, ← Complex.re_mul_ofReal]
+    congr 1
+    ring
+  simp_rw [hL]
+  rw [← Complex.re_sum, ← Finset.sum_div, key, magnetOp_neg P _ hQ, trOp_normalised, neg_div, Complex.neg_re]
+
+theorem dmPure_trace (psi : Cfg n → C ℝ) : ∑ τ, dmPure psi τ τ = ((∑ τ, C.normSq (psi τ) : ℝ) : ℂ) := by
+  push_cast
+  refine Finset.sum_congr rfl (fun τ _ => ?_)
+  rw [dmPure, Complex.mul_conj, Obs.toC_normSq]
+
+/-- for a wavefunction the rotated Born probabilities are what `rotate_psi_inner_prod` (as coded: enumeration of the expanded
+states, C04) gives: `|Σ_i Ut_i ψ(v_i)|² / Σ|ψ|²`, all sites rotated. -/
+theorem rotatedBorn_pure (us : Fin n → M2 ℝ) (psi : Cfg n → C ℝ) (σ : Cfg n) :
+    rotatedBorn us (dmPure psi) σ
+      = C.normSq (Unitaries.rotatePsiInnerProdE n us (fun _ => true) psi σ) / ∑ τ, C.normSq (psi τ) := by
+  have h := C04_inner_prod_enum_dense us (fun _ => true) psi σ (by intro j hj; simp at hj)
+  rw [rotatedBorn, dmPure_trace, Complex.div_ofReal_re, Obs.toC_normSq]
+  congr 1
+  have hx : (denseK us * Matrix.of (dmPure psi) * (denseK us).conjTranspose) σ σ
+      = (denseK us).mulVec (fun τ => QV.toC (psi τ)) σ * conj ((denseK us).mulVec (fun τ => QV.toC (psi τ)) σ) := by
+    simp only [Matrix.mul_apply, Matrix.conjTranspose_apply, Matrix.of_apply, Matrix.mulVec, dotProduct, dmPure,
+      map_sum, Finset.sum_mul, Finset.mul_sum, map_mul]
+    refine Finset.sum_congr rfl (fun τ _ => Finset.sum_congr rfl (fun τ' _ => ?_))
+    simp only [obs_toC_eq, ← starRingEnd_apply]
+    ring
+  rw [hx, ← h, Complex.mul_conj, Complex.ofReal_re]
+  rfl
+
+/-- for a density matrix the rotated Born probabilities are what `rotate_rho_probs` (as coded, C04) gives, divided by the
+trace `Σ probability`. -/
+theorem rotatedBorn_mixed (us : Fin n → M2 ℝ) (rho : Cfg n → Cfg n → C ℝ) (prob : Cfg n → ℝ)
+    (hdiag : ∀ σ, rho σ σ = (prob σ, 0)) (σ : Cfg n) :
+    rotatedBorn us (dmMixed rho) σ
+      = Unitaries.rotateRhoProbsE n us (fun _ => true) rho σ / ∑ τ, prob τ := by
+  have h := C04_rho_probs_enum_dense us (fun _ => true) rho σ (by intro j hj; simp at hj)
+  have hT : ∑ τ, dmMixed rho τ τ = ((∑ τ, prob τ : ℝ) : ℂ) := by
+    push_cast
+    refine Finset.sum_congr rfl (fun τ _ => ?_)
+    rw [dmMixed, hdiag]; rfl
+  rw [rotatedBorn, hT, Complex.div_ofReal_re, h]
+  rfl
+
+open Unitaries in
+/-- **sign anchor, single site**: for the default dictionary's `U_X`, `U_Y` (C04: unitary, rows = `+1`,`−1` eigen-bras of
+`σ_x`, `σ_y` in that order) and the observables' `Z = diag(−1,+1)`:  `U_Xᴴ Z U_X = −X`,  `U_Yᴴ Z U_Y = −Y`. -/
+theorem C08_basis_rotation_sign :
+    (∀ a b, conjDiag (m2c (dX : M2 ℝ)) zDiag a b = -pauliX a b)
+    ∧ (∀ a b, conjDiag (m2c (dY : M2 ℝ)) zDiag a b = -pauliY a b) :=
+  ⟨conjDiag_of_eigen _ QV.Props.pauliX C04_dX_unitary C04_dX_eigen,
+   conjDiag_of_eigen _ QV.Props.pauliY C04_dY_unitary C04_dY_eigen⟩
+
+open Unitaries in
+/-- **SigmaZ on rotated-basis outcomes = −SigmaX / −SigmaY on computational-basis samples**, for every state the
+importance-sampling interface represents: with `p_P(σ) = (K_P G K_Pᴴ)_σσ / tr G` the Born distribution of the outcomes when
+every site is measured in the `P` basis of the default dictionary,
+`Σ_σ p_X(σ)·SigmaZ.apply(σ) = −Σ_σ p(σ)·SigmaX.apply(σ)` and the same for Y.  The statement mentions model functions and
+C04's `denseK` only — no Pauli matrix of this file. -/
+theorem C08_rotated_Z (hn : 0 < n) {S : ImpState ℝ n} {G : Op n} {p : Cfg n → ℝ} (h : Represents S G p) :
+    (∑ σ, rotatedBorn (fun _ => dX) G σ * sigmaZApply false σ = -∑ σ, p σ * sigmaXApply S false σ)
+    ∧ (∑ σ, rotatedBorn (fun _ => dY) G σ * sigmaZApply false σ = -∑ σ, p σ * sigmaYApply S false σ) := by
+  rw [C08_sigmaX h, C08_sigmaY h]
+  exact ⟨rotated_Z_expectation hn dX pauliX C04_dX_unitary C08_basis_rotation_sign.1 G,
+    rotated_Z_expectation hn dY pauliY C04_dY_unitary C08_basis_rotation_sign.2 G⟩
+
+open Unitaries in
+/-- … for wavefunctions, with `p_P` computed by the model of `rotate_psi_inner_prod` as coded (C04):
+`p_P(σ) = |rotatePsiInnerProdE …|² / Σ|ψ|²`. -/
+theorem C08_rotated_Z_pure (hn : 0 < n) (psi : Cfg n → C ℝ) (hψ : ∀ σ, psi σ ≠ (0, 0)) :
+    (∑ σ, C.normSq (rotatePsiInnerProdE n (fun _ => dX) (fun _ => true) psi σ) / (∑ τ, C.normSq (psi τ))
+          * sigmaZApply false σ
+        = -∑ σ, bornPure psi σ * sigmaXApply (ImpState.pure psi) false σ)
+    ∧ (∑ σ, C.normSq (rotatePsiInnerProdE n (fun _ => dY) (fun _ => true) psi σ) / (∑ τ, C.normSq (psi τ))
+          * sigmaZApply false σ
+        = -∑ σ, bornPure psi σ * sigmaYApply (ImpState.pure psi) false σ) := by
+  have h := C08_rotated_Z hn (C08_represents_pure psi hψ)
+  simp only [rotatedBorn_pure] at h
+  exact h
+
+open Unitaries in
+/-- … for density matrices, with `p_P` computed by the model of `rotate_rho_probs` as coded (C04), divided by the trace. -/
+theorem C08_rotated_Z_mixed (hn : 0 < n) (rho : Cfg n → Cfg n → C ℝ) (prob : Cfg n → ℝ)
+    (hdiag : ∀ σ, rho σ σ = (prob σ, 0)) (hpos : ∀ σ, prob σ ≠ 0) :
+    (∑ σ, rotateRhoProbsE n (fun _ => dX) (fun _ => true) rho σ / (∑ τ, prob τ) * sigmaZApply false σ
+        = -∑ σ, bornMixed prob σ * sigmaXApply (ImpState.mixed rho prob) false σ)
+    ∧ (∑ σ, rotateRhoProbsE n (fun _ => dY) (fun _ => true) rho σ / (∑ τ, prob τ) * sigmaZApply false σ
+        = -∑ σ, bornMixed prob σ * sigmaYApply (ImpState.mixed rho prob) false σ) := by
+  have h := C08_rotated_Z hn (C08_represents_mixed rho prob hdiag hpos)
+  simp only [rotatedBorn_mixed _ rho prob hdiag] at h
+  exact h
+
+/-! ### The RBM density matrix satisfies the mixed-state hypotheses (audit item C08-2; from C02) -/
+section rbmMixed
+variable {hid a : ℕ}
+
+/-- the RBM density matrix on basis states, as the driver instantiates `ImpState.mixed` -/
+noncomputable abbrev rbmRho (am ph : PRBM ℝ n hid a) : Cfg n → Cfg n → C ℝ :=
+  fun σ σ' => Density.rho am ph (fun j => bit (σ j)) (fun j => bit (σ' j))
+/-- the reported unnormalised probability on basis states -/
+noncomputable abbrev rbmProb (am : PRBM ℝ n hid a) : Cfg n → ℝ := fun σ => Density.probability am (fun j => bit (σ j)) 1
+
+/-- `ρ σσ = (probability σ, 0)` and `probability σ = exp(−E_λ σ) > 0` for EVERY parameter setting (C02_diagonal):
+the hypotheses `hdiag`, `hpos` of `C08_represents_mixed` / `C08_mixed_states` hold for the RBM density matrix. -/
+theorem C08_rbm_rho_diag (am ph : PRBM ℝ n hid a) (σ : Cfg n) :
+    rbmRho am ph σ σ = (rbmProb am σ, 0) ∧ 0 < rbmProb am σ := by
+  have h := C02.C02_diagonal am ph (fun j => bit (σ j))
+  refine ⟨h.2, ?_⟩
+  have := h.1.symm.trans h.2
+  have h1 := congrArg Prod.fst this
+  simp only at h1
+  show 0 < Density.probability am (fun j => bit (σ j)) 1
+  rw [← h1]
+  exact Real.exp_pos _
+
+/-- **density-matrix RBM, no hypotheses**: all five estimators average to `Re tr(ρ̂ O)` for every parameter setting. -/
+theorem C08_mixed_rbm (am ph : PRBM ℝ n hid a) (c : ℕ) :
+    let S := ImpState.mixed (rbmRho am ph) (rbmProb am)
+    let R := normalised (dmMixed (rbmRho am ph))
+    (∑ σ, bornMixed (rbmProb am) σ * sigmaXApply S false σ = (trOp R (magnetOp pauliX)).re)
+    ∧ (∑ σ, bornMixed (rbmProb am) σ * sigmaYApply S false σ = (trOp R (magnetOp pauliY)).re)
+    ∧ (0 < n → ∑ σ, bornMixed (rbmProb am) σ * sigmaZApply false σ = (trOp R (magnetOp pauliZ)).re)
+    ∧ (∑ σ, bornMixed (rbmProb am) σ * neighbourPeriodicApply c σ = (trOp R (neighbourPeriodicOp c)).re)
+    ∧ (1 ≤ c → ∃ val : Cfg n → ℝ, (∀ σ, neighbourOpenApply c σ = .ok (val σ)) ∧
+        ∑ σ, bornMixed (rbmProb am) σ * val σ = (trOp R (neighbourOpenOp c)).re) :=
+  C08_mixed_states (rbmRho am ph) (rbmProb am) (fun σ => (C08_rbm_rho_diag am ph σ).1)
+    (fun σ => (C08_rbm_rho_diag am ph σ).2.ne') c
+
+open Unitaries in
+/-- the rotated-basis sign relation for the RBM density matrix, no hypotheses beyond `n > 0` -/
+theorem C08_rotated_Z_mixed_rbm (hn : 0 < n) (am ph : PRBM ℝ n hid a) :
+    (∑ σ, rotateRhoProbsE n (fun _ => dX) (fun _ => true) (rbmRho am ph) σ / (∑ τ, rbmProb am τ) * sigmaZApply false σ
+        = -∑ σ, bornMixed (rbmProb am) σ * sigmaXApply (ImpState.mixed (rbmRho am ph) (rbmProb am)) false σ)
+    ∧ (∑ σ, rotateRhoProbsE n (fun _ => dY) (fun _ => true) (rbmRho am ph) σ / (∑ τ, rbmProb am τ) * sigmaZApply false σ
+        = -∑ σ, bornMixed (rbmProb am) σ * sigmaYApply (ImpState.mixed (rbmRho am ph) (rbmProb am)) false σ) :=
+  C08_rotated_Z_mixed hn _ _ (fun σ => (C08_rbm_rho_diag am ph σ).1) (fun σ => (C08_rbm_rho_diag am ph σ).2.ne')
+
+end rbmMixed
+
+/-! ### Hermiticity of the five operators; the traces with the RBM density matrix are real -/
+
+theorem zz_hermitian (i k : Fin n) (σ σ' : Cfg n) :
+    opMul (siteOp pauliZ i) (siteOp pauliZ k) σ' σ = conj (opMul (siteOp pauliZ i) (siteOp pauliZ k) σ σ') := by
+  rw [zz_entry, zz_entry]
+  by_cases h : σ = σ'
+  · subst h; simp only [if_true, Complex.conj_ofReal]
+  · rw [if_neg h, if_neg (fun h' => h h'.symm), map_zero]
+
+theorem conj_inv_n : conj (1 / (n : ℂ)) = 1 / (n : ℂ) := by
+  rw [map_div₀, map_one, Complex.conj_natCast]
+
+/-- the five built-in operators are Hermitian -/
+theorem C08_ops_hermitian (c : ℕ) :
+    (∀ P : Bool → Bool → ℂ, (∀ a b, P b a = conj (P a b)) →
+        ∀ σ σ' : Cfg n, magnetOp P σ' σ = conj (magnetOp P σ σ'))
+    ∧ (∀ σ σ' : Cfg n, neighbourOpenOp c σ' σ = conj (neighbourOpenOp c σ σ'))
+    ∧ (∀ σ σ' : Cfg n, neighbourPeriodicOp c σ' σ = conj (neighbourPeriodicOp c σ σ')) := by
+  refine ⟨fun P hP σ σ' => ?_, fun σ σ' => ?_, fun σ σ' => ?_⟩
+  · unfold magnetOp
+    rw [map_mul, conj_inv_n, map_sum]
+    congr 1
+    exact Finset.sum_congr rfl (fun i _ => C08_ops_hermitian_site P hP i σ σ')
+  · unfold neighbourOpenOp
+    rw [map_mul, conj_inv_n, map_sum]
+    congr 1
+    refine Finset.sum_congr rfl (fun i _ => ?_)
+    rw [map_sum]
+    refine Finset.sum_congr rfl (fun k _ => ?_)
+    split
+    · exact zz_hermitian i k σ σ'
+    · simp
+  · unfold neighbourPeriodicOp
+    rw [map_mul, conj_inv_n, map_sum]
+    congr 1
+    refine Finset.sum_congr rfl (fun i _ => ?_)
+    rw [map_sum]
+    refine Finset.sum_congr rfl (fun k _ => ?_)
+    split
+    · exact zz_hermitian i k σ σ'
+    · simp
+
+section rbmMixed2
+variable {hid a : ℕ}
+
+theorem rbm_trace (am ph : PRBM ℝ n hid a) :
+    ∑ τ, dmMixed (rbmRho am ph) τ τ = ((∑ τ, rbmProb am τ : ℝ) : ℂ) := by
+  push_cast
+  refine Finset.sum_congr rfl (fun τ _ => ?_)
+  rw [dmMixed, (C08_rbm_rho_diag am ph τ).1]; rfl
+
+theorem rbm_trace_pos (am : PRBM ℝ n hid a) : 0 < ∑ τ, rbmProb am τ :=
+  Finset.sum_pos (fun σ _ => (C08_rbm_rho_diag am am σ).2) Finset.univ_nonempty
+
+/-- the normalised RBM density matrix is Hermitian for EVERY parameter setting (C02_hermitian_entry, no guard) -/
+theorem C08_rbm_rho_hermitian (am ph : PRBM ℝ n hid a) (σ σ' : Cfg n) :
+    normalised (dmMixed (rbmRho am ph)) σ' σ = conj (normalised (dmMixed (rbmRho am ph)) σ σ') := by
+  unfold normalised
+  rw [rbm_trace, map_div₀, Complex.conj_ofReal]
+  congr 1
+  exact C02.C02_hermitian_entry am ph (fun j => bit (σ j)) (fun j => bit (σ' j))
+
+/-- hence the traces of all five observables with the RBM density matrix are real: the `Re` in `C08_mixed_rbm` loses nothing -/
+theorem C08_mixed_rbm_trace_real (am ph : PRBM ℝ n hid a) (c : ℕ) :
+    let R := normalised (dmMixed (rbmRho am ph))
+    (trOp R (magnetOp pauliX)).im = 0 ∧ (trOp R (magnetOp pauliY)).im = 0 ∧ (trOp R (magnetOp pauliZ)).im = 0
+      ∧ (trOp R (neighbourPeriodicOp c)).im = 0 ∧ (trOp R (neighbourOpenOp c)).im = 0 := by
+  intro R
+  have hR := C08_rbm_rho_hermitian am ph
+  have hO := C08_ops_hermitian (n := n) c
+  exact ⟨C08_trace_real R _ hR (hO.1 pauliX C08_paulis_hermitian.1),
+    C08_trace_real R _ hR (hO.1 pauliY C08_paulis_hermitian.2.1),
+    C08_trace_real R _ hR (hO.1 pauliZ C08_paulis_hermitian.2.2),
+    C08_trace_real R _ hR hO.2.2, C08_trace_real R _ hR hO.2.1⟩
+
+end rbmMixed2
+
+/-! ### One value per sample (audit item C08-3) -/
+
+/-- **one value per sample**: the heap runs of `SigmaX` / `SigmaY` return a list exactly as long as the batch (the
+`zipWith`s of the site loop never truncate).  `SigmaZ` and `NeighbourInteraction` have no batch-level model: the code performs
+no in-place operation on `samples` there (`to_pm1` is `x.mul(2.0).sub(1.0)`, out of place; `mean`, slicing and `*` allocate),
+so the driver maps the per-sample function over the rows and the length is the batch length by construction; the harness
+checks shape, dtype and the bytes of the sample tensor for all five observables on the real code. -/
+theorem C08_one_value_per_sample {α : Type} [Add α] [Mul α] [Neg α] [Sub α] [Div α] [Zero α] [One α] [Transc α]
+    (S : ImpState α n) (absolute : Bool) (h : THeap n) (sid : ℕ) (hs : sid < h.next) :
+    (sigmaXRun S absolute h sid).2.length = (h.cells sid).length
+      ∧ (sigmaYRun S absolute h sid).2.length = (h.cells sid).length := by
+  have := C08_no_mutation S absolute h sid hs
+  rw [this.1.2, this.2.2, List.length_map, List.length_map]
+  exact ⟨rfl, rfl⟩
+
+/-- non-vacuity of the sign anchor: a complex RBM state on two sites -/
+example : let am : RBM ℝ 2 3 := ⟨fun i j => (i.val : ℝ) - j.val + 0.5, fun j => if j = 0 then -1.5 else 2,
+      fun i => if i = 0 then 0.7 else -0.3⟩
+    let ph : RBM ℝ 2 3 := ⟨fun i j => 0.25 * (i.val : ℝ) + j.val, fun j => if j = 0 then 1 else -2,
+      fun i => if i = 0 then -0.4 else 0.9⟩
+    let psi : Cfg 2 → C ℝ := fun σ => Wave.psiCplx am ph (fun j => bit (σ j))
+    ∑ σ, C.normSq (Unitaries.rotatePsiInnerProdE 2 (fun _ => Unitaries.dY) (fun _ => true) psi σ) / (∑ τ, C.normSq (psi τ))
+          * sigmaZApply false σ
+      = -∑ σ, bornPure psi σ * sigmaYApply (ImpState.pure psi) false σ :=
+  (C08_rotated_Z_pure (by norm_num) _ (fun σ => (C08_rbm_psi_ne_zero _ _ σ).2)).2
 
 /-- non-vacuity: a complex RBM state with `h ≠ n`, non-zero biases and a non-trivial phase network
 satisfies the hypotheses; here SigmaY. -/
